@@ -251,7 +251,12 @@ def setup(chk, props):
     build = vlib.build_repo("hooks")
     drv = vlib.build_driver("mockvm", build)
     chk.prove(props)
-    chk.cov["trusted_base"] = TRUSTED + ["axioms: see coverage.print_assumptions"]
+    chk.cov["trusted_base"] = TRUSTED + [
+        "tools/srccode.py: the queue functions of src/mocks.c (find_expectation, remove_expectation_for, have_always/never..., remove_never_call..., destroy_expectation_if_time_to_die, successfully_mocked_call) are translated whole into CLite programs on every run and run by the extracted interpreter against Mocks.v on every queue of up to 3 (thorough: 4) entries: a function-level correspondence check, not a proof",
+        "axioms: see coverage.print_assumptions"]
+    import codetie, re as _re
+    m = _re.search(r"Definition unlimited_ttl : Z :=\s*\(?(-?\d+)", open(os.path.join(vlib.COQ, "Gen", "Facts.v")).read())
+    codetie.mocks_queue(chk, int(m.group(1)) if m else 0x0f314159)
     return drv
 
 
@@ -298,6 +303,17 @@ def gen_all(chk, which):
             ops.append(("C", chk.rng.randrange(NF), [(0, 1), (1, 1)]))
         ops += [("E", 1, []), ("C", 1, [(0, 1), (1, 1)]), ("T",)]
         cases.append(ops)
+    # the queue used as a queue near the capacity of its store: fill to just below / at / above a growth
+    # boundary, serve the oldest entries (the head leaves), declare more, then serve everything in order
+    for base in ([99, 100, 101] if chk.tier == "quick" else [98, 99, 100, 101, 102, 199, 200, 201]):
+        for heads in ((1, 3) if chk.tier == "quick" else (1, 2, 3, 5)):
+            for more in ((1, 2) if chk.tier == "quick" else (1, 2, 3, 4)):
+                ops = [("E", i % NF, [("r", i)]) for i in range(base)]
+                ops += [call(i % NF) for i in range(heads)]                       # each call is served by the head of the whole queue
+                ops += [("E", (base + i) % NF, [("r", 1000 + i)]) for i in range(more)]
+                ops += [call((heads + i) % NF) for i in range(base - heads + more)]   # everything still pending, oldest first
+                ops.append(("T",))
+                cases.append(ops)
     if chk.tier == "thorough":
         cases += list(all_small_sequences(2, 4))
     else:
